@@ -18,6 +18,13 @@ def rec(f=None, **kw):
     return f
 
 
+def entry_complete_but_corrupt(data: bytes, p: int) -> bool:
+    """a COMPLETE message-set entry (offset:int64 size:int32 message) starts at p and its message fails the checksum:
+    the case that must surface as a checksum error, never as a too-small fetch or a quiet end of the set"""
+    return p >= 0 and p + 12 <= len(data) and u_i32(data, p + 8) >= 6 and p + 12 + u_i32(data, p + 8) <= len(data) and \
+        not msg_crc_ok(data[p + 12:p + 12 + u_i32(data, p + 8)])
+
+
 def msg_crc_ok(data: bytes) -> bool:
     """the stored checksum equals CRC-32 of everything after the checksum field"""
     return len(data) >= 6 and u_u32(data, 0) == crc32(data[4:])
